@@ -99,6 +99,14 @@ impl<'d> Rd<'d> {
         use crate::plan::SourceKind as SK;
         let timers = Timers::default();
         let r = match (kind, st.kind) {
+            (ReaderKind::Plain, SK::Str) => {
+                let end = st.eof_at.map(|e| (e as usize).min(doc.len())).unwrap_or(doc.len());
+                AnyReader::Slice(Reader::from_str(std::str::from_utf8(&doc[..end]).expect("Str source needs UTF-8")))
+            }
+            (ReaderKind::Ns, SK::Str) => {
+                let end = st.eof_at.map(|e| (e as usize).min(doc.len())).unwrap_or(doc.len());
+                AnyReader::NsSlice(NsReader::from_str(std::str::from_utf8(&doc[..end]).expect("Str source needs UTF-8")))
+            }
             (ReaderKind::Plain, SK::Slice) => {
                 let end = st.eof_at.map(|e| (e as usize).min(doc.len())).unwrap_or(doc.len());
                 AnyReader::Slice(Reader::from_reader(&doc[..end]))
